@@ -75,6 +75,22 @@ def correspond(run):
         run.oblige("correspondence:est-cases", "correspondence", False, (out + err)[-800:])
         return
     cases = js["cases"]
+    # the property's own clauses on the implementation: result = equal positions / length, mismatch reported
+    for c in cases:
+        la, lb = len(c["a"]), len(c["b"])
+        if la != lb and c["outcome"] == "ok":
+            run.violation("est-length-mismatch", "%s on sketches of lengths %d and %d returns a value instead of reporting the mismatch" % (
+                c["est"], la, lb), {"kind": "impl-input", "input": {"estimator": c["est"], "type": c["ty"], "a": c["a"], "b": c["b"]},
+                                    "observed": {"outcome": c["outcome"], "bits": c["bits"]}, "expected": "error or panic"})
+            break
+        if la == lb and la > 0:
+            cnt = sum(1 for x, y in zip(c["a"], c["b"]) if x == y)
+            if c["outcome"] != "ok" or expected_bits(cnt, la, c["res"]) != c["bits"]:
+                run.violation("est-not-exact", "%s on two sketches of length %d with %d equal positions returns outcome %s, bits %s (expected the "
+                              "float %d/%d)" % (c["est"], la, cnt, c["outcome"], c["bits"], cnt, la),
+                              {"kind": "impl-input", "input": {"estimator": c["est"], "type": c["ty"], "a": c["a"], "b": c["b"]},
+                               "observed": {"outcome": c["outcome"], "bits": c["bits"]}, "expected": {"count": cnt, "len": la}})
+                break
     shard = 300
     jobs = []
     for i in range(0, len(cases), shard):
@@ -117,22 +133,6 @@ def correspond(run):
                        "sketchers); compared: outcome class and the exact bits of the float result vs count/len from the "
                        "model; non-trivial = distinct case with a mismatch outcome or 0 < count < len",
                   extra=dist)
-    # the property's own clauses on the implementation: result = equal positions / length, mismatch reported
-    for c in cases:
-        la, lb = len(c["a"]), len(c["b"])
-        if la != lb and c["outcome"] == "ok":
-            run.violation("est-length-mismatch", "%s on sketches of lengths %d and %d returns a value instead of reporting the mismatch" % (
-                c["est"], la, lb), {"kind": "impl-input", "input": {"estimator": c["est"], "type": c["ty"], "a": c["a"], "b": c["b"]},
-                                    "observed": {"outcome": c["outcome"], "bits": c["bits"]}, "expected": "error or panic"})
-            break
-        if la == lb and la > 0:
-            cnt = sum(1 for x, y in zip(c["a"], c["b"]) if x == y)
-            if c["outcome"] != "ok" or expected_bits(cnt, la, c["res"]) != c["bits"]:
-                run.violation("est-not-exact", "%s on two sketches of length %d with %d equal positions returns outcome %s, bits %s (expected the "
-                              "float %d/%d)" % (c["est"], la, cnt, c["outcome"], c["bits"], cnt, la),
-                              {"kind": "impl-input", "input": {"estimator": c["est"], "type": c["ty"], "a": c["a"], "b": c["b"]},
-                               "observed": {"outcome": c["outcome"], "bits": c["bits"]}, "expected": {"count": cnt, "len": la}})
-                break
     run.oblige("correspondence:estimators", "correspondence", not bad,
                "%d cases differ; first: %s" % (len(bad), json.dumps(bad[0])[:500] if bad else ""))
 
